@@ -118,6 +118,97 @@ def gen_case(rng, quick=True):
     return c
 
 
+def gen_frame_prog(rng, size, jobsize):
+    """One frame of a multi-frame program: a few continue / flush calls (with mid-frame parameter changes zstd allows under
+    multithreading, ZSTD_sizeof_CCtx queries, a rare abort or worker-side allocation failure), then end after exactly `size` bytes."""
+    ops = []
+    left = size
+    n = 0
+    nmax = rng.choice([0, 1, 2, 4, 6])
+    while left > 0 and n < nmax:
+        i = min(left, rng.choice([jobsize, jobsize // 2, jobsize + 1, 2 * jobsize, 200000, 65536, left, left]))
+        o = rng.choice([0, 1, 100, 4096, 100000, 1 << 22, 1 << 22, 1 << 22])
+        if rng.random() < 0.3:
+            ops.append("C%d:%d" % (i, max(o, 100)))
+        else:
+            ops.append("%s%d:%d" % (rng.choice("ccccf"), i, o))
+        left -= i
+        n += 1
+        if rng.random() < 0.12:
+            ops.append(rng.choice(["P100:%d" % rng.choice([-5, 1, 3, 5, 7]), "P107:%d" % rng.randint(1, 5), "P105:%d" % rng.randint(3, 7),
+                                   "P102:%d" % rng.randint(6, 20), "P103:%d" % rng.randint(6, 20), "P106:%d" % rng.choice([0, 1, 16, 999]), "Z"]))
+        if rng.random() < 0.04:
+            ops.append("R")
+            return ops, True
+        if rng.random() < 0.03:
+            ops.append("X%d" % rng.randint(0, 3))
+    ops.append("G%d:%d" % (left, rng.choice([1 << 22, 100000, 16384, 3000])))
+    return ops, False
+
+
+def gen_between(rng, st):
+    """Parameter / dictionary switches between two frames (numeric ZSTD_cParameter ids)."""
+    ops = []
+    r = rng.random
+    if r() < 0.35:
+        ops.append("P160:%d" % rng.choice([0, 1]))                       # enableLongDistanceMatching
+    if r() < 0.25:
+        ops.append("P201:%d" % rng.choice([0, 1]))                       # checksumFlag
+    if r() < 0.3:
+        st["jobsize"] = rng.choice([512 * 1024, MB, 600000, 2 * MB, 0])
+        ops.append("P401:%d" % st["jobsize"])                            # jobSize
+    if r() < 0.3:
+        ops.append("P402:%d" % rng.randint(0, 9))                        # overlapLog
+    if r() < 0.2:
+        ops.append("P500:%d" % rng.choice([0, 1]))                       # rsyncable
+    if r() < 0.3:
+        ops.append("P100:%d" % rng.choice([-3, 1, 1, 2, 3, 4, 5, 6]))    # compressionLevel
+    if r() < 0.3:
+        ops.append("P101:%d" % rng.choice([0, 10, 14, 17, 18, 19, 20, 21, 22, 23]))   # windowLog
+    for pid, vals in ((161, [0, 6, 10, 16, 20]), (163, [0, 1, 4, 8]), (164, [0, 1, 4, 7]), (162, [0, 4, 32, 64, 4096]),      # ldm hashLog / bucketSizeLog / hashRateLog / minMatch
+                      (130, [0, 1340, 4000, 100000]), (1015, [0, 1024, 4096, 65536, 131072]), (1000, [0, 1]),             # targetCBlockSize, maxBlockSize, forceMaxWindow
+                      (1002, [0, 1, 2]), (1010, [0, 1, 2]), (1011, [0, 1, 2]), (200, [0, 1])):                             # literalCompressionMode, useBlockSplitter, useRowMatchFinder, contentSizeFlag
+        if r() < 0.1:
+            ops.append("P%d:%d" % (pid, rng.choice(vals)))
+    if r() < 0.35 and not st.get("aborted"):
+        # (no dictionary call right after an abort: known finding mt-abandoned-session-dict-freed)
+        ops.append("D%d" % rng.choice([0, 1, 1, 2, 3, 4]))
+    if r() < 0.1:
+        ops.append("Z")
+    return ops
+
+
+def gen_case_multi(rng):
+    """2-4 frames on one context, parameters / dictionaries switched between them; nbWorkers stays (lock-stepped)."""
+    nbw = rng.choice([1, 2, 2, 3, 4])
+    jobsize = rng.choice([512 * 1024, MB, 600000])
+    st = dict(jobsize=jobsize)
+    total = 0
+    ops = []
+    for f in range(rng.randint(2, 4)):
+        if f > 0 or rng.random() < 0.5:
+            ops += gen_between(rng, st)
+        js = st["jobsize"] or MB
+        size = int(js * rng.choice([0.4, 1.0, 1.5, 2.2, 3.1])) + rng.choice([0, 1, 17])
+        size = max(530000, min(size, 4 * MB))
+        fo, st["aborted"] = gen_frame_prog(rng, size, js)
+        ops += fo
+        total += size
+    c = Case(nbw=nbw, jobsize=jobsize, level=rng.choice([1, 1, 2, 3]), ovlog=rng.choice([0, 0, 3, 6, 9]), rsync=0, ldm=0, cksum=rng.choice([0, 1]),
+             dict=rng.choice([0, 0, 1, 2]), kind=rng.choice([0, 1, 1, 2, 3, 3]), iseed=rng.getrandbits(30), isize=total + 1000,
+             seed=rng.getrandbits(40), stay=rng.choice([0, 30, 60, 85, 95]), probe=1 if rng.random() < 0.2 else 0)
+    x = rng.random()
+    if x < 0.4:
+        c.policy, c.fam = "r", 0
+    elif x < 0.6:
+        c.policy, c.fam, c.famarg = "r", 1, rng.choice([0, 1, 2, 3, 5])
+    else:
+        c.policy, c.fam = "r", rng.choice([2, 2, 3, 3, 4, 5, 6])
+        c.famarg = rng.choice([0, 1]) if c.fam == 2 else (rng.randint(1, nbw) if c.fam == 4 else 0)
+    c.prog = ",".join(ops)
+    return c
+
+
 FINDING_PROGS = {
     "C1048576:4194304,X0,f120000:0,C1600000:0,E4194304": "C11-ldm-wait-after-worker-error",
     "f100000:0,X1,C3600000:1,E4194304": "C11-serial-turn-skipped-after-error",
@@ -206,6 +297,19 @@ def corpus(rng):
     C.append(Case(nbw=2, jobsize=512 * 1024, ovlog=9, ldm=1, wlog=20, kind=3, isize=4194304, prog="C1048576:4194304,F4194304,X1,f120000:0,C1600000:0,E4194304", tag="ldm-error-window-2w"))
     # stage error: continue after the frame ended
     C.append(Case(nbw=2, jobsize=512 * 1024, isize=2 * MB, prog="e1000000:100,c1000:1000,E4194304,E4194304", tag="continue-after-end"))
+    # third wave: several frames on ONE context with parameters switched in between (op Pp:v = ZSTD_CCtx_setParameter, Dn = dictionary calls,
+    # GI:O = end the frame after I more bytes).  Every frame re-runs ZSTDMT_initCStream_internal; since fix 97c340a its setNbSeq section belongs
+    # to every frame, a frame without LDM switches the sequence pool off again and resets serial.nextJobID after that section.
+    T = 512 * 1024
+    C.append(Case(nbw=2, jobsize=T, ldm=1, wlog=20, kind=3, isize=5000000, prog="G1600000:4194304,P160:0,G1600000:4194304,P160:1,G1600000:4194304", tag="ldm-on-off-on"))
+    C.append(Case(nbw=1, jobsize=T, kind=3, isize=5000000, prog="G1200000:4194304,P160:1,P101:20,C1100000:100,G600000:100000,P160:0,c600000:0,G700000:4194304", tag="ldm-off-on-off"))
+    C.append(Case(nbw=2, jobsize=T, ldm=1, wlog=21, kind=3, isize=5000000, prog="c1600000:0,R,P160:0,G1300000:4194304,P160:1,c1100000:100,R,G600000:4194304", tag="ldm-abort-off-on"))
+    C.append(Case(nbw=2, jobsize=T, kind=1, isize=6000000, prog="G1300000:4194304,P401:1048576,G2500000:4194304,P401:524288,P402:9,G1300000:100000", tag="jobsize-switch"))
+    C.append(Case(nbw=3, jobsize=T, kind=1, cksum=1, isize=4000000, prog="G1200000:4194304,P201:0,G1200000:4194304,P201:1,P500:1,G1400000:4194304", tag="cksum-rsync-switch"))
+    C.append(Case(nbw=2, jobsize=T, kind=1, dict=0, isize=5000000, prog="D2,G1100000:4194304,D1,G1100000:4194304,D0,G600000:4194304,D3,G1100000:100000,D4,G700000:4194304", tag="dict-switch"))
+    C.append(Case(nbw=2, jobsize=T, kind=3, ldm=1, wlog=20, dict=0, isize=4000000, prog="D1,G1700000:4194304,D2,G1200000:4194304,P160:0,D1,G700000:4194304", tag="ldm-dict-switch"))
+    C.append(Case(nbw=2, jobsize=T, kind=1, isize=3000000, prog="c600000:4194304,P107:4,c600000:4194304,P100:5,P105:3,c600000:1000,Z,P102:12,G700000:4194304", tag="midframe-params"))
+    C.append(Case(nbw=2, jobsize=T, kind=1, isize=3000000, prog="c1100000:1000,Z,c600000:1000,Z,X0,c600000:0,Z,G600000:4194304,G500000:4194304", tag="sizeof-midframe"))
     out = []
     for c in C:
         out.append(c.clone(policy="r", fam=6))
@@ -566,6 +670,10 @@ def compare(cst, mst, skip_win=False, skip_t0=False):
                 continue
             if i in (5, 6, 7, 12) and jown[k] != "-1":
                 continue        # consumed, cSize, dstBuff (written under job_mutex since d04f829), jobCompleted: the job mutex is held
+            if i in (1, 3) and cf[i] == "-2" and not (int(cm[0]) <= int(cf[0]) < int(cm[1]) + int(cm[2])):
+                continue        # a STALE slot (no job in flight, none prepared) still points into the round buffer that a later frame with a
+                                # larger capacity has replaced: the pointer is dead, the model has no address for it (the slot is rewritten
+                                # by ZSTDMT_createCompressionJob before it is used again: mt_ring_slot_reuse)
             if cf[i] != mf[i]:
                 diffs.append("jobs[%d].%s impl=%s model=%s" % (k, n, cf[i], mf[i]))
     if "fl" in cst and "fl" in mst and cst["fl"] != mst["fl"]:
